@@ -8,6 +8,7 @@ import Rmk.Proofs.VirtualLaws
 import Rmk.Proofs.VirtualViewLaws
 import Rmk.Proofs.VirtualIterLaws
 import Rmk.Proofs.VirtualApplyLaws
+import Rmk.Proofs.VirtualPartial
 namespace Rmk.C20
 open Rmk Rmk.Virtual Rmk.VirtualLaws
 
@@ -102,5 +103,24 @@ theorem view_history_wholly_virtual (H : Hash) (src : Src) (t : Ty) (n : Node) (
     VirtualLaws.OptRel (Mat H src) (applyAllM H src t (.virt (n.root H)) ops) (applyAll H t n ops) ∧
     (applyAllM H src t (.virt (n.root H)) ops).map (·.root H) = (applyAll H t n ops).map (·.root H) :=
   ⟨VirtualApplyLaws.virtual_apply_history hs t ops, VirtualApplyLaws.virtual_apply_history_root hs t ops⟩
+
+/-- A PARTIAL TREE SERVED LAZILY (C17 and C20 together: the mixed tree `m` materialises to a tree `p` in which subtrees of
+    the complete tree `n` were summarised): every read fails or agrees with the complete tree, the serialiser likewise, and a
+    mutator (every operation; `append` needs `ZeroInj H`, as on partial trees in general) fails or succeeds on the complete
+    tree too with a backing of the same root. -/
+theorem partial_tree_served_lazily (H : Hash) (src : Src) (t : Ty) (m : MNode) (p n : Node)
+    (hm : Mat H src m p) (hs : Summ H p n) :
+    ((readValM H src t m = none ∨ readValM H src t m = Impl.readVal H t n) ∧
+     (∀ i, readElemM H src t m i = none ∨ readElemM H src t m i = Impl.readElem H t n i) ∧
+     (viewLenM H src t m = none ∨ viewLenM H src t m = Impl.viewLen H t n) ∧
+     (∀ a b, sliceReadM H src t m a b = none ∨ sliceReadM H src t m a b = Impl.sliceRead H t n a b)) ∧
+    (serTreeM H src t m = none ∨ serTreeM H src t m = Impl.serTree H t n) ∧
+    (∀ op, (∀ v, op ≠ .append v) → applyM H src t m op = none ∨ ∃ m' p' n', applyM H src t m op = some m' ∧
+      Impl.apply H t n op = some n' ∧ Mat H src m' p' ∧ Summ H p' n' ∧ m'.root H = n'.root H) ∧
+    (PartialViews.ZeroInj H → ∀ op, applyM H src t m op = none ∨ ∃ m' p' n', applyM H src t m op = some m' ∧
+      Impl.apply H t n op = some n' ∧ Mat H src m' p' ∧ Summ H p' n' ∧ m'.root H = n'.root H) :=
+  ⟨VirtualPartial.reads_fail_or_agree hm hs t, VirtualPartial.ser_fail_or_agree hm hs t,
+    fun op hop => VirtualPartial.mutator_root_partial hm hs t op hop,
+    fun hZ op => VirtualPartial.mutator_root hZ hm hs t op⟩
 
 end Rmk.C20
